@@ -356,18 +356,9 @@ Proof. vm_compute. reflexivity. Qed.
    first-found index 5), is never used as a source, and 3 stays ungrouped *)
 Definition path_0523 : list N :=
   [0;9;9;9;9;1; 9;0;9;9;9;9; 9;9;0;1;9;1; 9;9;1;0;9;9; 9;9;9;9;0;9; 1;9;1;9;9;0]%N.
-Theorem find_groups_closed_refuted :
-  exists nb v ng ids a b,
-    check_grouping_matrix nb v = true /\ find_groups_gen false nb v = Some (ng, ids) /\ (0 < ng)%nat /\
-    (a < nb)%nat /\ (b < nb)%nat /\ vget v (a * nb + b) = min_distance nb v /\
-    nth a ids O <> O /\ nth b ids O <> nth a ids O.
-Proof.
-  exists 6%nat, path_0523, 1%nat, [1;0;1;0;0;1]%nat, 2%nat, 3%nat.
-  vm_compute. repeat split; auto; discriminate.
-Qed.
 
 (* the patched scan (newfirstfound = smallest newly grouped index) puts 3 in the group *)
-Example find_groups_closed_postfix_witness :
+Example find_groups_closed_witness :
   find_groups_gen true 6 path_0523 = Some (1%nat, [1;0;1;1;0;1]%nat).
 Proof. vm_compute. reflexivity. Qed.
 
